@@ -197,7 +197,8 @@ def history_independence(prefix, frame):
 
 def obligations(pid, tier):
     quick = tier == "quick"
-    pool = [dict(n0=1, m0=1, n1=2, m1=1), dict(n0=1, m0=1, n1=1, m1=2), dict(n0=2, m0=1, n1=1, m1=1)]
+    pool = [dict(n0=1, m0=1, n1=2, m1=1), dict(n0=1, m0=1, n1=1, m1=2), dict(n0=2, m0=1, n1=1, m1=1),
+            dict(n0=0, m0=2, n1=1, m1=1), dict(n0=1, m0=1, n1=0, m1=1), dict(n0=1, m0=0, n1=1, m1=1)]
     if not quick:
         pool += [dict(n0=2, m0=2, n1=2, m1=2), dict(n0=0, m0=1, n1=2, m1=2)]
     prefixes = [[], ["wide"], ["narrow"], ["other"], ["scene"], ["narrow", "wide"], ["wide", "scene", "narrow"]]
